@@ -6,7 +6,8 @@ EXTENDS LinkCommand, TLC
 CONSTANTS Cmds, Subs,        \* command / sub-type values the Env may request
           Corrs,             \* corruption codes the channel may apply (subset of 0..52)
           MaxCmds,           \* commands per behaviour
-          InjWords           \* words the Env may inject directly into the detector
+          InjWords,          \* words the Env may inject directly into the detector
+          CheckStatic        \* evaluate the static wire-format theorems in this run (they do not depend on the bounds)
 
 VARIABLES s,     \* composite Ref state
           in     \* the cycle record that led to this state (Env inputs and Ref-allowed outputs)
@@ -59,7 +60,7 @@ TypeOK == /\ s.g.st \in {"idle", "hdr", "cmd"}
           /\ s.njudged <= Len(s.sent)
 
 \* static wire-format theorems: all 16 x 16 commands, all 36 single-bit and 16 both-copy corruptions
-ASSUME \A c \in 0..15, u \in 0..15 : WireFormatOk(c, u)
+ASSUME CheckStatic => \A c \in 0..15, u \in 0..15 : WireFormatOk(c, u)
 ASSUME Crc5TableOk
-ASSUME \A c \in 0..15, u \in 0..15 : AllCorruptionsRejected(c, u)
+ASSUME CheckStatic => \A c \in 0..15, u \in 0..15 : AllCorruptionsRejected(c, u)
 =============================================================================
